@@ -254,6 +254,30 @@ func c02DeletePropagates(r *core.Run) {
 			return false
 		}, "sends DelEntry")
 	}
+	// a backup owner that could not be told fails the delete: inside the fan-out closures the
+	// transport error and the backup's reply are handed back, and the helper returns Wait()
+	if h := r.Need("delete-propagates-first", fnDelBackup); h != nil {
+		n := counter{}
+		closures := 0
+		for _, an := range h.SSA.AnonFuncs {
+			if len(findInstrs(an, false, callTo(fnRedisProcess))) == 0 {
+				continue
+			}
+			closures++
+			ok := propagatesFailure(r.P, an, callTo(fnRedisProcess)) && propagatesFailure(r.P, an, callNamed("Err"))
+			r.Check(ok, "delete-propagates-first", n.next(fnDelBackup+" failed DelEntry fails the delete"), site(r, an.Pos()),
+				"the send's error and the backup's reply are returned to the error group",
+				"a DelEntry that failed (transport error or error reply) is swallowed: the Delete is acknowledged while a backup keeps the key — with no tombstone the quorum read brings the deleted value back")
+		}
+		waits := false
+		for _, ret := range core.Returns(h.SSA) {
+			if c, ok := core.ResultValue(ret, 0).(*ssa.Call); ok && methodName(c) == "Wait" {
+				waits = true
+			}
+		}
+		r.Check(closures > 0 && waits, "delete-propagates-first", fnDelBackup+" returns the group's error", site(r, h.SSA.Pos()),
+			"the helper returns errgroup.Wait()", "the helper does not return the error group's result")
+	}
 	// deleteKey: every success return passes deleteOnCluster (D25)
 	if k := r.Need("delete-propagates-first", fnDeleteKey); k != nil {
 		successBefore(r, "delete-propagates-first", k, callTo(fnDeleteOnClu), "deleteOnCluster",
